@@ -317,9 +317,9 @@ def main():
     cases += explore(ck, torch, G, SpyLeaf, finding_tops(), dist, opdist)
     cases += explore(ck, torch, G, SpyLeaf, wrap(exhaustive_tops(th)), dist, opdist)
     cases += explore(ck, torch, G, SpyLeaf, wrap((t for _ in range(40 if th else 10) for t in offprecondition_tops(r)), 1), dist, opdist)
-    cases += explore(ck, torch, G, SpyLeaf, (gc.random_top(r) for _ in range(20000 if th else 1200)), dist, opdist)
+    cases += explore(ck, torch, G, SpyLeaf, (gc.random_top(r) for _ in range(14000 if th else 1200)), dist, opdist)
     # more random trees through the implementation oracle only
-    explore(ck, torch, G, SpyLeaf, (gc.random_top(r) for _ in range(40000 if th else 3000)), dist, opdist, coq=False)
+    explore(ck, torch, G, SpyLeaf, (gc.random_top(r) for _ in range(30000 if th else 3000)), dist, opdist, coq=False)
     ck.extra['exhaustive'] = True
     ck.extra['exhaustive_note'] = 'all depth<=2 shapes (every combinator over leaves; depth 3 unary-over-binary and binary-over-unary in thorough) enumerated'
     ck.extra['coq_cases'] = len(cases)
